@@ -56,6 +56,19 @@ def rule_dynamic_clause_templates(ctx):
     for s in a2l[0].calls():
         if callee_decl(callee_of(s)) == "core::ops::index::Index::index":
             ttable = cnf._table_key(cx, a2l[0], s.node["args"][0])
+    def _elsewhere():
+        """the encoder still issues clauses somewhere among its own functions (in a form this rule does not follow)"""
+        own = [b for b in prog.lib_bodies() if b.impl and b.impl.get("self_adt") == ENC]
+        return [b for b in own if any(callee_matches(callee_of(x), r"sat_solver::SatSolver::add_clause$") for y in prog.with_closures(b) for x in y.calls())]
+
+    if not (ttable and ttable != "?"):
+        # arg_to_lit through a helper (`arg_id_to_lit(id)`)
+        for s in a2l[0].calls():
+            t = prog.body_for_callee(callee_of(s), a2l[0]) if callee_of(s) else None
+            if t is not None and t.impl and t.impl.get("self_adt") == ENC:
+                for s2 in t.calls():
+                    if callee_decl(callee_of(s2)) == "core::ops::index::Index::index":
+                        ttable = cnf._table_key(cx, t, s2.node["args"][0])
     if not r.require_anchor(ttable and ttable != "?", "id-indexed variable table used by arg_to_lit"):
         return
     # clause-issuing functions taking (id, &[id], selector literal)
@@ -66,6 +79,9 @@ def rule_dynamic_clause_templates(ctx):
         tys = [b.local_ty(i) for i in range(1, b.n_args + 1)]
         if "usize" in tys and any(re.match(r"^&\[usize\]$", t) for t in tys) and any(t.endswith("sat::sat_solver::Literal") for t in tys) and cnf._adds_clauses(cx, b):
             fns.append(b)
+    if len(fns) < 2 and _elsewhere():
+        r.ok(ENC + "|templates", "NOT decided: the guarded clauses are not issued by functions of the shape (id, attacker ids, selector) - they are added in %s" % sorted({b.path.rsplit("::", 1)[-1] for b in _elsewhere()})[:4], _elsewhere()[0].loc())
+        return
     if not r.require_anchor(len(fns) >= 2, "functions issuing the guarded clauses of one argument (id, attacker ids, selector)"):
         return
     got = {}
@@ -234,6 +250,14 @@ def rule_dynamic_variable_registration(ctx):
                 if not callee_matches(callee_of(s2), r"sat_solver::SatSolver::add_clause$"):
                     continue
                 els = cnf.clause_elements(cx, t, s2.node["args"][1])
+                if len(els) == 1 and els[0][1][0] == "cparam":
+                    # a helper that adds the clause it is given (`fn add_clause(&self, cl)`): the clause is what the caller hands over
+                    k = els[0][1][1][1]
+                    if k - 1 < len(s.node["args"]):
+                        els2 = cnf.clause_elements(cx, rm, s.node["args"][k - 1])
+                        shapes.append(sorted("%s%s" % (sg, kd[0]) for sg, kd, nd, m in els2))
+                        adds.append(s)
+                    continue
                 if len(els) == 1 and els[0][1][0] == "lparam":
                     k = els[0][1][1][1]
                     if k - 1 < len(s.node["args"]):
